@@ -665,7 +665,7 @@ def build_unit(tmpl_path: str, repo: str, inline=None):
                 raise ExtractError(f'{tmpl_path}: unterminated block for {b}')
             src, m = load(rel)
             if is_fn and default_rw:
-                subs = [['rw', a_, [], i + 1] for a_ in default_rw] + subs
+                subs = subs + [['rw', a_, [], i + 1] for a_ in default_rw]   # unit-wide defaults run after the fn's own rewrites
             if is_fn:
                 _emit_fn(g, meta, tmpl_path, rel, src, m, None if a in ('-', '') else a, b, kv, subs)
             else:
@@ -746,6 +746,24 @@ def _emit_fn(g, meta, tmpl, rel, src, m, ctx, name, kv, subs):
             e = mm0.index('|', h + 1)
             text = text[:h] + '|_ignored|' + text[e + 1:]
         rwlog.append(dict(rule='R12', what='closure parameter `_` named `_ignored`', applied=len(hits)))
+    # R10a (always on): `assert_eq!(a, b[, "msg"..])` -> `assert!(a == b)` and `assert_ne!` likewise — the same runtime check (the
+    # panic message is dropped); the installed Verus has no specification for core::panicking::assert_failed
+    for mac, op in (('assert_eq', '=='), ('assert_ne', '!=')):
+        guard = 0
+        while guard < 50:
+            guard += 1
+            mm0 = mask(text)
+            mo = re.search(r'\b' + mac + r'!\s*\(', mm0)
+            if not mo:
+                break
+            po = mo.end() - 1
+            pc = match_brace(mm0, po)
+            args = _split_top(text[po + 1:pc])
+            if len(args) < 2:
+                break
+            nl = text[mo.start():pc + 1].count('\n')
+            text = text[:mo.start()] + f'assert!({" ".join(args[0].split())} {op} {" ".join(args[1].split())})' + '\n' * nl + text[pc + 1:]
+            rwlog.append(dict(rule='R10', what=f'{mac}!(a, b, ..) -> assert!(a {op} b)', applied=1))
     mm = mask(text)
     # re-find body open in rewritten text: first '{' at depth 0 after fn name
     mo = re.search(r'\bfn\s+' + re.escape(name) + r'\b', mm)
@@ -817,7 +835,7 @@ def _emit_fn(g, meta, tmpl, rel, src, m, ctx, name, kv, subs):
                 if extra.startswith('iter='):
                     loop_iter[int(la[0])] = extra[5:]
         elif kind == 'at':
-            if arg.strip() in ('start', 'end'):
+            if arg.strip() in ('start', 'end', 'tail'):
                 hints.append((arg.strip(), '', 0, content, lno))
                 continue
             mo3 = re.match(r'(before|after)\s+`(.*)`\s*(?:#(\d+))?\s*$', arg)
@@ -849,6 +867,20 @@ def _emit_fn(g, meta, tmpl, rel, src, m, ctx, name, kv, subs):
             continue
         if where == 'end':
             inserts.append((len(body), content))
+            continue
+        if where == 'tail':
+            # just before the tail expression: after the last `;` at brace depth 0 of the body
+            mb = mask(body)
+            depth = 0
+            last = 0
+            for ii, ch in enumerate(mb):
+                if ch in '{([':
+                    depth += 1
+                elif ch in '})]':
+                    depth -= 1
+                elif ch == ';' and depth == 0:
+                    last = ii + 1
+            inserts.append((last, content))
             continue
         off = find_anchor(body, atext, kk)
         if off < 0:
